@@ -168,19 +168,30 @@ Print Assumptions C16_expired_removed_exactly.
 
 (** (e) Transport routing table (packetHandlerMap): for every history of Add / AddWithConnID /
     Remove / ReplaceWithClosed (positive closing period) / reset-token calls / packets /
-    passing time, a connection ID maps to a closed-connection stand-in only while a
-    closing period naming it is still running; once time has passed the last pending
+    passing time, a connection ID maps to a closed-connection stand-in only while the
+    closing period that installed this stand-in for it is still running; once time has passed the last pending
     deadline no ID maps to a closed connection and no timer is left. *)
 Theorem C16_routing_closed_expire : forall ops,
   Forall rop_ok ops ->
   let s := rt_run ops rt_init in
   (forall k h, In (k, h) (rt_handlers s) -> closed_kind h ->
-     exists t ids, In (t, ids) (rt_timers s) /\ In k ids /\ rt_now s < t) /\
-  (forall d, 0 <= d -> (forall t ids, In (t, ids) (rt_timers s) -> t <= rt_now s + d) ->
+     exists t ids, In (t, ids, h) (rt_timers s) /\ In k ids /\ rt_now s < t) /\
+  (forall d, 0 <= d -> (forall t ids k, In (t, ids, k) (rt_timers s) -> t <= rt_now s + d) ->
      let s' := fst (rt_step (RAdvance d) s) in
      rt_timers s' = [] /\ forall k h, In (k, h) (rt_handlers s') -> ~ closed_kind h).
 Proof. exact routing_closed_expire. Qed.
 Print Assumptions C16_routing_closed_expire.
+
+(** (d) An ID routed to a live connection stays routed to it until an operation names that very
+    ID (Remove, ReplaceWithClosed, AddWithConnID as the new ID); in particular a later Add for
+    an ID survives the expiry of an earlier closed stand-in for the same ID (the removal timer
+    only retires the entry it installed). *)
+Theorem C16_routing_live_survives : forall ops o c n,
+  Forall rop_ok ops -> ~ touches o c ->
+  hget c (rt_handlers (rt_run ops rt_init)) = Some (HConn n) ->
+  hget c (rt_handlers (fst (rt_step o (rt_run ops rt_init)))) = Some (HConn n).
+Proof. exact live_survives_history. Qed.
+Print Assumptions C16_routing_live_survives.
 
 (** (d)/(e) a connection ID that was never handed to the table does not reach any handler *)
 Theorem C16_routing_no_foreign : forall ops s k h,
